@@ -149,17 +149,28 @@ def library_defaults():
     import inspect
     from torchphysics.problem.conditions import condition, deeponet_condition
     from torchphysics.utils import user_fun
+    import types
     out = []
+
+    def take(label, f):
+        f = getattr(f, "__func__", f)
+        f = getattr(f, "__wrapped__", f)
+        kwd = getattr(f, "__kwdefaults__", None) or {}
+        for dflt in tuple(getattr(f, "__defaults__", None) or ()) + tuple(kwd.values()):
+            if isinstance(dflt, (dict, list, set)) or (hasattr(dflt, "as_tensor") and hasattr(dflt, "space")):
+                out.append((label, dflt))
     for mod in (condition, deeponet_condition, user_fun):
+        for fname, f in vars(mod).items():
+            if isinstance(f, types.FunctionType) and getattr(f, "__module__", "") == mod.__name__:
+                take("%s.%s" % (mod.__name__.rsplit(".", 1)[-1], fname), f)
         for cname, cls in inspect.getmembers(mod, inspect.isclass):
             if getattr(cls, "__module__", "") != mod.__name__:
                 continue
-            for fname in ("__init__", "__call__", "forward"):
-                f = cls.__dict__.get(fname)
-                f = getattr(f, "__wrapped__", f)
-                for dflt in (getattr(f, "__defaults__", None) or ()):
-                    if isinstance(dflt, (dict, list)) or (hasattr(dflt, "as_tensor") and hasattr(dflt, "space")):
-                        out.append(("%s.%s" % (cname, fname), dflt))
+            # every function defined in the class (helpers included): a mutable default that is written to is state shared
+            # by all conditions of the process
+            for fname, f in vars(cls).items():
+                if isinstance(f, (types.FunctionType, staticmethod, classmethod)):
+                    take("%s.%s" % (cname, fname), f)
     return out
 
 
